@@ -22,6 +22,7 @@ RULE = (
     "and after the last event, NodeStart count of leaf nodes = function invocations + cache hits. Non-trivial: the "
     "stream has >= 2 node spans; distinct = (program shape, variant)."
     ' Cache backends whose k-th write OR k-th lookup fails.'
+    ' Two or three concurrent top-level calls on one AsyncRunner, each with its own processor (natural lock-step schedule and controlled schedules): every processor gets the whole tree of its own call and nothing else.'
     ' Also: map() with max_concurrency 0 / -1 (a rejected call or a whole span tree, never a mixture); two further processors that compare equal to each other, each owed the whole stream and one shutdown; a nested graph pausing in the step of a failing sibling.'
 )
 ASSUMPTIONS = ["PAUSED calls are outside the statement and are counted, not judged"]
@@ -368,6 +369,81 @@ def empty_map(ctx, o, label, case):
         ctx.violation("C12:shutdown-count", f"{label}: runner.map over an empty list: shutdown invoked {shut} times for one top-level call", case)
 
 
+def concurrent_calls(ctx, i):
+    """Two or three top-level calls on ONE AsyncRunner at the same time (asyncio.gather), each with its OWN processor:
+    every processor is owed the complete, well-nested tree of exactly its own call - nested runs and map items parented
+    to the node that launched them in the stream they are delivered to - and one shutdown after its last event. Natural
+    schedule (plain function bodies: the calls move through their steps in lock-step) and the controlled scheduler."""
+    import asyncio
+
+    from hgmon.build import build_program
+    from hypergraph import AsyncRunner
+
+    rng = ctx.rng
+    fam = families.nested(rng, depth=rng.randint(1, 2)) if i % 2 == 0 else families.mapped(rng, err="continue")
+    controlled = rng.random() < 0.5
+    spec = core.with_async(fam["spec"], True, rng, 0.6) if controlled else fam["spec"]
+    rt.reset_program()
+    try:
+        built = build_program(spec)
+    except Exception as e:  # noqa: BLE001
+        ctx.inconc(f"concurrent_calls: program not buildable: {e!r}")
+        return
+    k = rng.randint(2, 3)
+    Rec, ARec = rt.make_processors()
+    procs = [(ARec(f"q{j}", rng, 2) if rng.random() < 0.4 else Rec(f"q{j}")) for j in range(k)]
+    runner = AsyncRunner()
+    rt.install_taps()
+    rec = rt.new_rec()
+    sched = rt.Sched(default="rand", rng=rng) if controlled else None
+
+    async def one(j):
+        tok = rt.TAG.set(f"q{j}")
+        try:
+            return await runner.run(built.graph, dict(fam["inputs"]), event_processors=[procs[j]])
+        finally:
+            rt.TAG.reset(tok)
+
+    async def main():
+        return await asyncio.gather(*[asyncio.ensure_future(one(j)) for j in range(k)], return_exceptions=True)
+
+    try:
+        results = rt.run_async(main, sched=sched) if controlled else asyncio.run(main())
+    except rt.Deadlock:
+        ctx.violation("C12:concurrent-deadlock", "concurrent calls on one runner deadlocked", {"spec": spec})
+        return
+    except rt.Inconclusive as e:
+        ctx.inconc(str(e))
+        return
+    case = {"family": fam["family"], "spec": spec, "inputs": fam["inputs"], "calls": k, "controlled": controlled}
+    for j, res in enumerate(results):
+        tag = f"q{j}"
+        evs = rt.events_of(rec, tag)
+        ctx.obs["concurrent_call_streams"] += 1
+        ctx.obs["streams_checked"] += 1
+        ctx.obs["events_checked"] += len(evs)
+        if isinstance(res, BaseException):
+            ctx.violation("C12:concurrent-call-raised", f"call {j} of {k} concurrent calls raised {res!r}", case)
+            return
+        bad, st = monitors.span_check(evs, spec)
+        for key, what in bad[:1]:
+            ctx.violation(key + ":concurrent-calls", f"call {j} of {k} concurrent calls on one runner: {what}", case)
+            return
+        from hypergraph.events import NodeStartEvent, RunStartEvent
+
+        others = sum(1 for e in evs if isinstance(e, RunStartEvent) and e.parent_span_id is None)
+        if others != 1:
+            ctx.violation("C12:foreign-events:concurrent-calls", f"processor of call {j} received {others} root RunStart events", case)
+            return
+        shut = [n_ for n_, e in enumerate(rec.ev) if e[0] == "shutdown" and e[1] == tag]
+        last = max((n_ for n_, e in enumerate(rec.ev) if e[0] == "ev" and e[1] == tag), default=-1)
+        if len(shut) != 1 or shut[0] < last:
+            ctx.violation("C12:shutdown-count" if len(shut) != 1 else "C12:shutdown-before-last-event", f"processor of call {j}: shutdowns at {shut}, last event at {last}", case)
+            return
+        ctx.obs["nested_runs"] += st["nested_runs"]
+    ctx.case({"concurrent": k, "f": fam["family"], "s": gen.shape_of(spec), "ctl": controlled}, True)
+
+
 def run(ctx):
     n = 90 if ctx.tier == "quick" else 2000
     if ctx.replay:
@@ -395,6 +471,9 @@ def run(ctx):
             continue
         if i % 30 == 8:
             pause_next_to_failure(ctx, i)
+            continue
+        if i % 10 == 2:
+            concurrent_calls(ctx, i // 10)
             continue
         fam = families.gated(ctx.rng, deterministic=True) if i % 7 == 3 else families.rich(ctx.rng)
         k = variants(ctx, fam)
